@@ -218,7 +218,7 @@ def e2e(ctx: Ctx):
         items.append((strings, PLACEMENTS[k % len(PLACEMENTS)], SETUPS[(k // len(PLACEMENTS)) % len(SETUPS)], "create" if (k // (len(PLACEMENTS) * len(SETUPS))) % 2 == 0 else "fix"))
     # the other code paths that write a string: the bound of <= (fix), a member of `in` (update), a never-compared snapshot (update)
     for k, mode in enumerate(("bound", "in_update", "never_update") * (3 if not ctx.thorough else 12)):
-        strings = [s_ for s_ in pool[(7 + k * per) % len(pool):][:per] if s_] or ["a b "]
+        strings = [" a ", "a ", " a", "a'\"", "x\"", "it's \"q\" ", "\\' "] + [s_ for s_ in pool[(7 + k * per) % len(pool):][:per] if s_]
         items.append((strings, "top", SETUPS[(k // 3) % len(SETUPS)], mode))
     outs = pmap(run_e2e, items, chunksize=1)
     n = 0
